@@ -560,13 +560,17 @@ func c13FillSetMapping(c *kit.Case, l *c13Level, below []*c13Level) {
 	l.text = map[string]string{}
 	nruns := kit.Pick(rng, []int{0, 1, 1, 2, 3, 4, 6, 8})
 	big := rng.Chance(1, 25)
+	bigLong := false
 	if big {
 		nruns = rng.Range(110, 260) // more than one chunk of 100 operators
+		bigLong = rng.Bool()
 	}
 	for i := 0; i < nruns; i++ {
 		r := &l.csr[rng.Intn(len(l.csr))]
 		length := kit.Pick(rng, []int{1, 1, 2, 3, 5, 8, 16, 40})
-		if big {
+		if big && bigLong && i >= nruns-3 {
+			length = rng.Range(250, 600) // long value lists inside a full chunk of operators
+		} else if big {
 			length = kit.Pick(rng, []int{1, 1, 1, 2, 2, 3})
 		} else if rng.Chance(1, 20) {
 			length = rng.Range(250, 600) // crosses the last-byte boundary more than once
@@ -1288,14 +1292,14 @@ func c13Case(c *kit.Case, cfg c13Config) {
 	x := pdf.NewExtractor(r)
 	f2, err := cmap.Extract(pdf.CursorAt(x, nil), ref, false)
 	if err != nil || f2 == nil {
-		m.fail("cid/extract-error", "Extract: %v", err)
+		m.fail("cid/extract-error/"+c13ErrClass(err), "Extract: %v", err)
 	} else {
 		c.Inc("cmaps_extracted")
 		m.checkCID("extracted", f2, chain)
 	}
 	tu2, err := cmap.ExtractToUnicode(pdf.CursorAt(x, nil), tuRef, false)
 	if err != nil || tu2 == nil {
-		m.fail("tu/extract-error", "ExtractToUnicode: %v", err)
+		m.fail("tu/extract-error/"+c13ErrClass(err), "ExtractToUnicode: %v", err)
 	} else {
 		c.Inc("tounicode_extracted")
 		m.checkTU("extracted", tu2, tuChain)
@@ -1303,6 +1307,18 @@ func c13Case(c *kit.Case, cfg c13Config) {
 
 	if c.WantSample() {
 		c.Sample(map[string]any{"config": cfgText, "chain": kit.Trunc(c13Describe(chain), 1500), "file_bytes": buf.Len()})
+	}
+}
+
+// c13ErrClass names the kind of an extraction error for the violation key.
+func c13ErrClass(err error) string {
+	switch {
+	case err == nil:
+		return "nil-result"
+	case strings.Contains(err.Error(), "stackoverflow"):
+		return "postscript-stackoverflow"
+	default:
+		return "other"
 	}
 }
 
@@ -1326,7 +1342,7 @@ func TestVerifC13(t *testing.T) {
 
 	// 7 versions x pretty x writing mode x 0..2 parents = 84 cells; the
 	// first cases walk through the cells, later ones draw them.
-	r.Phase("files", r.N(40000, 1000000), func(c *kit.Case) {
+	r.Phase("files", r.N(24000, 1000000), func(c *kit.Case) {
 		var cfg c13Config
 		if c.Index < 84*8 {
 			i := c.Index % 84
